@@ -175,10 +175,31 @@ func (r *updRunner) step() {
 			})
 			c.err, c.res, c.done = err, classifyUpdateErr(err), true
 		}()
-	case "DeliverUpd", "DeliverRes":
+	case "DeliverUpd", "DeliverRes", "DeliverResLate":
 		m := a.Args[0].(tla.Rec)
 		mt, from, ver := m["t"].(string), m["from"].(string), m["st"].(tla.Rec)["ver"].(int)
 		mb := m["st"].(tla.Rec)["b"].(int)
+		if a.Name == "DeliverResLate" {
+			// the context of the waiting call ends in the instant in which the call has taken the response
+			to := "A"
+			if from == "A" {
+				to = "B"
+			}
+			mcalls := tla.AsFn(r.beh[k].State["calls"].(tla.Rec)[to])
+			for x := range mcalls.K {
+				mc := mcalls.V[x].(tla.Rec)
+				if c := r.calls[to][mcalls.K[x].(int)]; c != nil && mc["pc"].(string) == "wait" && mc["st"].(tla.Rec)["ver"].(int) == ver {
+					fired := false
+					updResHook.Store(func() { fired = true; c.cancel() })
+					defer func() {
+						updResHook.Store(func() {})
+						if fired {
+							r.res.Add("late_cancellations", 1)
+						}
+					}()
+				}
+			}
+		}
 		i := w.Bus.Find(func(e *wire.Envelope) bool {
 			inf := w.Bus.Info(e)
 			if inf.Ch != r.id || inf.T != mt || inf.From != from || inf.Ver != ver {
@@ -471,6 +492,7 @@ func TestUpdate(t *testing.T) {
 	if dir == "" && os.Getenv("VERIF_DOT") == "" {
 		t.Skip()
 	}
+	useHookLogger()
 	res := drv.NewResult("update")
 	defer func() {
 		if err := res.Write(); err != nil {
